@@ -16,27 +16,25 @@ the follow-up call.  The solver's role is the case split over this finite grid (
 path below the split is fully concrete and is executed with CrossHair's tracer switched off (``NoTracing``),
 because tracing the ~10^5 bytecodes of a dispatch costs seconds per path and decides nothing more.
 
-Asserted per script:
+Asserted per script (exactly what C04 states; *how* call 1 itself ends — which exception class the client
+sees, or none — is error fidelity, C07, and is recorded but never judged here):
   1. nobody waits forever: no wait-for cycle, and no party blocked on a peer that has stopped
-     (a ``serve`` loop that ends — by an exception it does not handle *or* one it treats as end of
-     connection, classes read from its ``except`` clauses with ``ast`` — while the client still has a
-     complete call outstanding is reported);
-  2. a faulty call is answered with an ``RpcError`` whenever the client asks for a result;
-  3. the next, well-formed call on the same connection (unary or stream, symbolic) gets its own answer;
-  4. at quiescence (server idle, waiting for the next request with nothing unread) the client has no
-     unread response bytes either — both directions are aligned.
+     (a ``serve`` loop that has ended — by an exception it does not handle *or* one it treats as end of
+     connection — while the client still waits for an answer is reported; a ``serve`` that ends or raises
+     *after* both calls were answered is not);
+  2. the next, well-formed call on the same connection (unary or stream, symbolic) gets its own answer;
+  3. once the server is idle again the client has no unread response bytes — both directions are
+     aligned, so the call after that would get its own answer too.
 
 Real replay: the *same client script* over ``make_pipe_pair`` + ``RpcServer.serve`` in a thread, with a
-watchdog for hangs.
+watchdog for hangs; the three judgements are taken from what that real connection shows (alignment is
+asked the way the property asks it: one more well-formed call after call 2 must get its own answer).
 """
 
 from __future__ import annotations
 
-import ast
 import contextlib
-import inspect
 import io
-import textwrap
 import threading
 from dataclasses import dataclass
 from typing import Any, ClassVar, Protocol
@@ -102,37 +100,6 @@ ASSUMPTIONS = [
 ]
 
 # ---------------------------------------------------------------------------
-# loop-ending classes, read from RpcServer.serve at run time
-# ---------------------------------------------------------------------------
-
-
-def _loop_ending_classes() -> tuple[type, ...]:
-    """Exception classes whose handler in ``RpcServer.serve`` (around ``serve_one``) ends the loop."""
-    tree = ast.parse(textwrap.dedent(inspect.getsource(srv.RpcServer.serve)))
-    out: list[type] = []
-    for node in ast.walk(tree):
-        if not isinstance(node, ast.Try):
-            continue
-        calls = [c for s in node.body for c in ast.walk(s) if isinstance(c, ast.Call) and isinstance(c.func, ast.Attribute) and c.func.attr == "serve_one"]
-        if not calls:
-            continue
-        for h in node.handlers:
-            if not any(isinstance(s, ast.Break) for b in h.body for s in ast.walk(b)):
-                continue
-            if h.type is None:
-                raise RuntimeError("bare except around serve_one: harness out of date")
-            names = h.type.elts if isinstance(h.type, ast.Tuple) else [h.type]
-            for n in names:
-                obj = eval(compile(ast.Expression(n), "<serve-except>", "eval"), dict(srv.__dict__))  # noqa: S307
-                out.append(obj)
-    if not out:
-        raise RuntimeError("no loop-ending except clause found around serve_one")
-    return tuple(out)
-
-
-LOOP_ENDING = _loop_ending_classes()
-
-# ---------------------------------------------------------------------------
 # script + test service
 # ---------------------------------------------------------------------------
 
@@ -177,7 +144,10 @@ class _Live:
     """What the test service reads while it runs (set per path, before any repo code runs)."""
 
     script = Script(UNARY)
-    armed = False  # faults / logs fire only during the first call
+    # True for the whole run (set/cleared by the thread that starts the parties, never while they run).  Faults and
+    # logs belong to call 1 because only call 1 uses flaky/prod/prod_h/exch; the follow-up's ``count`` stream
+    # carries ``faulty=False`` in its own state — no cross-thread flag is read to tell the calls apart.
+    armed = False
 
 
 S = _Live()
@@ -212,10 +182,12 @@ def _step(call_no: int, out: Any) -> None:
 class ProdState(ProducerState):
     left: int
     calls: int = 0
+    faulty: bool = True  # False for the follow-up call's stream: it never logs or fails
 
     def produce(self, out: Any, ctx: Any) -> None:
         self.calls += 1
-        _step(self.calls, out)
+        if self.faulty:
+            _step(self.calls, out)
         if self.left <= 0:
             out.finish()
             return
@@ -251,7 +223,7 @@ class Impl:
         return a + b
 
     def count(self, n: int) -> Any:
-        return Stream(output_schema=_OUT, state=ProdState(n))
+        return Stream(output_schema=_OUT, state=ProdState(n, faulty=False))
 
     def flaky(self, a: int, ctx: Any = None) -> Any:
         if _logs_on():
@@ -351,8 +323,10 @@ def _drive_session(session: Any, sc: Script, seen: dict) -> None:
             session.close()
 
 
-def _client_script(transport: Any, sc: Script, out: dict, quiesce: Any = None) -> None:
-    """Faulty call 1, then good call 2, on one connection; ``out`` collects what the client observed."""
+def _client_script(transport: Any, sc: Script, out: dict, quiesce: Any = None, third_call: bool = False) -> None:
+    """Faulty call 1, then good call 2, on one connection; ``out`` collects what the client observed.
+    Alignment after call 2: ``quiesce`` (in-memory network: exact count of unread bytes once the server is idle) or
+    ``third_call`` (real pipes: one more well-formed call must get its own answer)."""
     from vgi_rpc.rpc import RpcConnection
 
     def on_log(msg: Any) -> None:
@@ -362,7 +336,7 @@ def _client_script(transport: Any, sc: Script, out: dict, quiesce: Any = None) -
 
     with RpcConnection(Svc, transport, on_log=on_log if sc.log_at else None) as proxy:
         out["stage"] = "call 1"
-        try:
+        if True:  # call 1: however it ends (result, RpcError, the callback's own exception, anything else) is recorded only
             try:
                 if sc.kind in _REQUEST_LEVEL:
                     _write_first_request(transport.writer, sc.shape, sc.kind)
@@ -384,8 +358,8 @@ def _client_script(transport: Any, sc: Script, out: dict, quiesce: Any = None) -
                 out["err1"] = e.error_type
             except _CallbackBoom:
                 out["cb1"] = True
-        finally:
-            S.armed = False
+            except Exception as e:  # noqa: BLE001  (not C04's business how call 1 fails; what matters is call 2)
+                out["exc1"] = f"{type(e).__name__}: {str(e)[:120]}"
         out["stage"] = "call 2"
         try:
             if sc.second_is_stream:
@@ -394,6 +368,13 @@ def _client_script(transport: Any, sc: Script, out: dict, quiesce: Any = None) -
                 out["res2"] = proxy.add(a=2, b=3)
         except RpcError as e:
             out["err2"] = f"{e.error_type}: {str(e)[:120]}"
+        if third_call:
+            # real pipes: "is anything unread left over?" is asked the way the property asks it — by the call after
+            out["stage"] = "call 3"
+            try:
+                out["res3"] = proxy.add(a=20, b=22)
+            except RpcError as e:
+                out["res3"] = f"{e.error_type}: {str(e)[:120]}"
         out["stage"] = "done"
         if quiesce is not None:
             out["unread_at_quiescence"] = quiesce()
@@ -401,36 +382,20 @@ def _client_script(transport: Any, sc: Script, out: dict, quiesce: Any = None) -
 
 def _judge(sc: Script, out: dict) -> str:
     """'' when what the client observed satisfies the property, else what is wrong."""
-    if "crash" in out:
-        return f"client failed in {out.get('stage')} with {out['crash']}"
-    observable = _fault_observable(sc)
-    if observable and "err1" not in out and "cb1" not in out:
-        return "the faulty call was not answered with an error"
-    if not observable and "err1" in out:
-        return f"unexpected error in call 1: {out['err1']}"
+    how1 = out.get("err1") or out.get("exc1") or ("on_log exception" if "cb1" in out else "a result")
+    if "crash" in out and out.get("stage") != "done":  # (after "done" both calls were answered: teardown only)
+        # call 1 cannot crash the script (every way it ends is recorded); this is call 2 or the connection itself
+        return f"the next call on the same connection failed ({out.get('stage')}) with {out['crash']} (call 1 had ended with {how1})"
     if "err2" in out:
-        return f"the next call on the same connection was answered with {out['err2']}"
+        return f"the next call on the same connection was answered with {out['err2']} (call 1 had ended with {how1})"
     want: Any = [0] if sc.second_is_stream else 5
     if out.get("res2") != want:
-        return f"the next call returned {out.get('res2')!r} instead of {want!r}"
+        return f"the next call returned {out.get('res2')!r} instead of {want!r} (call 1 had ended with {how1})"
     if out.get("unread_at_quiescence"):
-        return f"{out['unread_at_quiescence']} response bytes nobody will read are left on the connection after both calls"
+        return f"{out['unread_at_quiescence']} response bytes nobody will read are left on the connection after both calls: the call after these would not get its own answer"
+    if "res3" in out and out["res3"] != 42:
+        return f"the connection is left misaligned after both calls: the call after them (add(20, 22)) was answered with {out['res3']!r}"
     return ""
-
-
-def _fault_observable(sc: Script) -> bool:
-    """Does the client *observe* the fault as an RpcError (given what it asks for)?"""
-    if sc.kind == NONE:
-        return False
-    if sc.kind in (STEP_RAISE, STEP_LOG_RAISE):
-        if sc.shape == EXCH:
-            return sc.pos <= sc.k
-        return sc.pos <= sc.k and sc.pos <= _TOTAL + 1
-    if sc.shape in (PROD, EXCH):
-        # header-less stream refused before it started: the stub call returns a session; the error surfaces on
-        # the first tick()/exchange().  close()/cancel() on an unused session discard the answer by design.
-        return sc.k >= 1
-    return True
 
 
 # ---------------------------------------------------------------------------
@@ -635,8 +600,8 @@ def _run_concrete(sc: Script) -> str:
         raise HarnessModelError("in-memory scheduler did not terminate")
     if net.stuck:
         return net.stuck
-    if ended and ended[0]:
-        return f"serve() raised {ended[0]}"
+    # (a serve() that raised *after* both calls were answered is not C04's business; one that stopped while the
+    # client was still waiting has been reported as ``stuck`` above, with the exception in the message)
     return _judge(sc, out)
 
 
@@ -697,17 +662,23 @@ def _real(sc: Script) -> str | None:
 
     def client_guarded() -> None:
         try:
-            _client_script(client_t, sc, out)
+            _client_script(client_t, sc, out, third_call=True)
         except BaseException as e:  # noqa: BLE001  (after the watchdog closed the pipes, or a transport error)
             out["crash"] = f"{type(e).__name__}: {e}"
 
     ct = threading.Thread(target=client_guarded, daemon=True)
     ct.start()
-    ct.join(timeout=6.0)
+    # Watchdog.  A real run takes milliseconds; "blocked" is only said when the client is still inside the same
+    # stage after the whole allowance *and* a further grace period (a loaded machine must not turn into a hang).
+    ct.join(timeout=_WATCHDOG_S)
+    if ct.is_alive():
+        seen_stage = out["stage"]
+        ct.join(timeout=_WATCHDOG_S / 2)
+        if ct.is_alive() and out["stage"] != seen_stage:
+            ct.join(timeout=_WATCHDOG_S)  # it is making progress after all
     blocked = ct.is_alive()
     stage = out["stage"]
     died_before = list(died)  # what had happened before the teardown below
-    snapshot = dict(out)
     # Teardown.  Never close a reader another thread may be blocked in (BufferedReader.close() would wait for
     # that read forever): close the *write* ends, which delivers EOF to whoever is blocked, then join.
     for w in (server_t.writer, client_t.writer):
@@ -723,13 +694,26 @@ def _real(sc: Script) -> str | None:
             server_t.reader.close()
     S.armed = False
     what = "real pipe, " + sc.describe()
+    _LAST["mode"] = ""
     if blocked:
+        if stage == "done":
+            return None  # every call was answered; what hangs is the transport's own close(), not a call
         why = f"; the server's serve() thread had died with {type(died_before[0]).__name__}: {died_before[0]}" if died_before else ""
-        return f"{what}: client blocked for >6s in {stage}{why}"
-    if died_before:
-        return f"{what}: serve() died with {type(died_before[0]).__name__}: {died_before[0]}"
-    verdict = _judge(sc, snapshot if blocked else out)
-    return f"{what}: {verdict}" if verdict else None
+        _LAST["mode"] = "client-blocked"
+        return f"{what}: client blocked for >{_WATCHDOG_S:.0f}s in {stage}{why}"
+    verdict = _judge(sc, out)
+    if not verdict:
+        return None
+    _LAST["mode"] = "left-misaligned-after-next-call" if "misaligned" in verdict else "next-call-not-answered-correctly"
+    return f"{what}: {verdict}"
+
+
+_WATCHDOG_S = 12.0
+_LAST = {"mode": ""}  # failure mode of the last real replay (the finding is named after what was observed)
+
+
+def _sig(prefix: str) -> str:
+    return prefix + (":" + _LAST["mode"] if _LAST["mode"] else "")
 
 
 # ---------------------------------------------------------------------------
@@ -819,7 +803,7 @@ def _sc_hnone(a: dict) -> Script:
 
 @cond(q=40, t=90, encoded=[srv.RpcServer._serve_stream, wire._write_stream_header],
       bound="header-declaring producer returning header=None x client 0..%d ticks x {close, cancel} x 2 follow-ups" % _K,
-      replay=lambda a: _real(_sc_hnone(a)), signature=lambda a, c: "C04:init:declared-header-none-escapes-serve-one")
+      replay=lambda a: _real(_sc_hnone(a)), signature=lambda a, c: _sig("C04:init:declared-header-none"))
 def stream_declared_header_missing(k: int, cancel: bool, second_is_stream: bool) -> bool:
     """
     pre: 0 <= k <= _K
@@ -834,7 +818,7 @@ def _sc_nonstream(a: dict) -> Script:
 
 @cond(q=60, t=120, encoded=[srv.RpcServer._serve_stream],
       bound="3 stream shapes x return value {None, 42} x client 0..%d ticks x {close, cancel} x 2 follow-ups" % _K,
-      replay=lambda a: _real(_sc_nonstream(a)), signature=lambda a, c: "C04:init:non-stream-return-escapes-serve-one")
+      replay=lambda a: _real(_sc_nonstream(a)), signature=lambda a, c: _sig("C04:init:non-stream-return"))
 def stream_method_returns_non_stream(shape: int, ret: int, k: int, cancel: bool, second_is_stream: bool) -> bool:
     """
     pre: 0 <= shape <= 2 and 0 <= ret <= 1 and 0 <= k <= _K
